@@ -27,6 +27,8 @@
 #include "src/interpret.h"
 #include "src/backend.h"
 void verif_tick (void);
+extern int verif_binaries_loaded;	/* hook in lib/lpc/program/binaries.c */
+static int binloads_base = 0;
 
 /* virtual clock: backend.c:call_heart_beat() does `time (&current_time)`; interposed at link level so that a backend
  * tick keeps the harness' clock (current_time) instead of jumping to the wall clock */
@@ -38,7 +40,7 @@ time_t time (time_t * t)
   return v;
 }
 
-#define MAXN 512
+#define MAXN 4096
 static char *names[MAXN];
 static int nnames = 0;
 
@@ -157,9 +159,20 @@ static const char *pname (program_t * p)
   return o;
 }
 
+/* long canonical lines (a table with hundreds of slots does not fit vh_out's buffer) */
+static void out_long (const char *line)
+{
+  fprintf (stderr, "VL %s\n", line);
+  fflush (stderr);
+}
+
+#define DUMPSZ (1 << 20)
+static void dump_cmp (program_t * p);
+
 static void dump_prog (program_t * p)
 {
-  char line[16000], *o = line;
+  static char line[DUMPSZ];
+  char *o = line;
   size_t left = sizeof line;
 #define EMIT(...) do { int _n = snprintf (o, left, __VA_ARGS__); if (_n > 0 && (size_t) _n < left) { o += _n; left -= _n; } } while (0)
   EMIT ("tbl %s id=%d nvt=%d nvd=%d ft=", pname (p), p->id_number, p->num_variables_total, p->num_variables_defined);
@@ -194,7 +207,51 @@ static void dump_prog (program_t * p)
   for (int i = 0; i < p->num_inherited; i++)
     EMIT ("%s%s:%d:%d:%d", i ? "," : "", pname (p->inherit[i].prog), (int) p->inherit[i].function_index_offset,
           (int) p->inherit[i].variable_index_offset, (int) p->inherit[i].type_mod);
-  vh_out ("%s", line);
+  out_long (line);
+  dump_cmp (p);
+}
+
+/* the COMPRESSED table as it is stored: the fields of compressed_offset_table_t, the index bytes, and the stored
+ * runtime entries read directly from function_offsets[] (NOT through FIND_FUNC_ENTRY); the union member printed is
+ * the one the flags of the owning slot announce */
+static void dump_cmp (program_t * p)
+{
+  static char line[DUMPSZ];
+  char *o = line;
+  size_t left = sizeof line;
+  compressed_offset_table_t *c = p->function_compressed;
+  int f_ov = c->first_overload, f_def = c->first_defined;
+  int n_ov = f_def - c->num_compressed;
+  int j = f_def - c->num_deleted;
+  int nstored = p->num_functions_total - c->num_deleted;
+  EMIT ("cmp %s fdef=%d fov=%d ncomp=%d ndel=%d ix=", pname (p), f_def, f_ov, (int) c->num_compressed, (int) c->num_deleted);
+  if (n_ov <= 0)
+    EMIT ("-");
+  for (int i = 0; i < n_ov; i++)
+    EMIT ("%s%d", i ? "," : "", (int) c->index[i]);
+  EMIT (" st=");
+  if (nstored <= 0)
+    EMIT ("-");
+  for (int k = 0; k < nstored; k++)
+    {
+      int owner = -1;
+      runtime_function_u *e = p->function_offsets + k;
+      if (k < j)
+        {
+          for (int i = 0; i < n_ov; i++)
+            if (c->index[i] == k && c->index[i] != 255)
+              owner = f_ov + i;
+        }
+      else
+        owner = f_def + (k - j);
+      if (owner < 0 || owner >= p->num_functions_total)
+        EMIT ("%s?", k ? "," : "");
+      else if (p->function_flags[owner] & NAME_INHERITED)
+        EMIT ("%sI:%d:%d", k ? "," : "", (int) e->inh.offset, (int) e->inh.index);
+      else
+        EMIT ("%sD:%d:%d", k ? "," : "", (int) e->def.f_index, (int) e->def.num_arg);
+    }
+  out_long (line);
 }
 
 static void cmd_dump (int n, char **tok)
@@ -232,6 +289,104 @@ static void cmd_dump (int n, char **tok)
       if (ob && !(ob->flags & O_DESTRUCTED))
         vh_out ("obj %s %s", tok[i], pname (ob->prog));
     }
+  /* how many programs came from saved binaries since the start of the case / the last `reload` */
+  vh_out ("binloads %d", verif_binaries_loaded - binloads_base);
+}
+
+/* reload <name>...   everything compiled for this case is thrown away so that it is loaded again (from the saved
+ * binaries, if the case's programs have #pragma save_binary) in a state where the shared strings of the function names
+ * live at OTHER addresses: every object under /c07/g/ is destructed and really freed (programs and their name strings
+ * go), the apply cache is cleared (its entries hold name references), the harness' own references are dropped, and the
+ * names are interned again in the order given (best effort: ascending addresses in that order; the following `dump`
+ * shows the order actually reached).  Names the driver itself keeps alive (create, heart_beat) stay where they are. */
+static object_t *held[256];
+static int nheld = 0;
+
+static void cmd_reload (int n, char **tok)
+{
+  object_t *victims[512];
+  int nv = 0;
+  for (object_t * ob = obj_list; ob && nv < 512; ob = ob->next_all)
+    if (!(ob->flags & O_DESTRUCTED) && ob->name && !strncmp (ob->name, "c07/g/", 6))
+      victims[nv++] = ob;
+  for (int i = 0; i < nv; i++)
+    {
+      error_context_t econ;
+      save_context (&econ);
+      if (!setjmp (econ.context))
+        {
+          destruct_object (victims[i]);
+          pop_context (&econ);
+        }
+      else
+        {
+          restore_context (&econ);
+          pop_context (&econ);
+        }
+    }
+  /* labels of destructed objects must not dangle; give back the references the label table holds */
+  for (int i = 0; i < nv; i++)
+    {
+      const char *oid;
+      while (strcmp (oid = vh_oid_of (victims[i]), "?"))
+        vh_setobj (oid, 0);
+    }
+  remove_destructed_objects ();
+  for (int i = 0; i < nheld; i++)
+    free_object (held[i], "c07 reload");
+  nheld = 0;
+  clear_apply_cache ();
+  for (int i = 0; i < nnames; i++)
+    free_string (names[i]);
+  nnames = 0;
+  static char *got[MAXN];
+  int made = 0;
+  for (int attempt = 0; attempt < 40; attempt++)
+    {
+      static int dummy_no = 0;
+      int ok = 1;
+      char *prev = 0;
+      made = 0;
+      for (int i = 1; i < n && made < MAXN; i++)
+        {
+          char *p;
+          if (findstring (tok[i]))
+            continue;		/* kept alive by the driver (or named twice): cannot move */
+          p = make_shared_string (tok[i]);
+          if (prev && p <= prev)
+            ok = 0;
+          prev = p;
+          got[made++] = p;
+        }
+      if (ok || attempt == 39)
+        break;
+      for (int i = 0; i < made; i++)
+        free_string (got[i]);
+      /* take some chunks of the same size class out of the allocator's free list and try again */
+      for (int i = 0; i < 64; i++)
+        {
+          char d[32];
+          snprintf (d, sizeof d, "zz_pad_%d", dummy_no++);
+          make_shared_string (d);
+        }
+    }
+  /* the harness' table owns one reference per name: the one made above, or a new one for a name that could not move */
+  for (int i = 1; i < n && nnames < MAXN; i++)
+    {
+      char *p = findstring (tok[i]);
+      int seen = 0, mine = 0;
+      for (int k = 0; k < nnames; k++)
+        if (names[k] == p)
+          seen = 1;
+      if (seen)
+        continue;
+      for (int k = 0; k < made; k++)
+        if (got[k] == p)
+          mine = 1;
+      names[nnames++] = mine ? p : make_shared_string (tok[i]);
+    }
+  binloads_base = verif_binaries_loaded;
+  vh_out ("reload done");
 }
 
 /* ---- calls --------------------------------------------------------------- */
@@ -275,8 +430,19 @@ static object_t *caller_ob (void)
   return c;
 }
 
-static void cmd_call (const char *origin, const char *oid, const char *fn)
+static void cmd_call (const char *origin, const char *oid, const char *fn, const char *argstr)
 {
+  long args[16];
+  int nargs = 0;
+  if (argstr)
+    for (const char *p = argstr; *p && nargs < 16;)
+      {
+        args[nargs++] = strtol (p, (char **) &p, 10);
+        if (*p == ',')
+          p++;
+        else
+          break;
+      }
   object_t *ob = vh_obj (oid);
   char res[1024] = "";
   volatile int rc = 0;		/* 0 value, 1 error, 2 refused / not there */
@@ -307,7 +473,9 @@ static void cmd_call (const char *origin, const char *oid, const char *fn)
             copy_and_push_string (fn);	/* malloc'ed copy: other pointer, same text */
           else
             share_and_push_string (sfn);	/* the shared string itself */
-          ret = apply (intern ("do_call"), c, 2, ORIGIN_DRIVER);
+          for (int i = 0; i < nargs; i++)
+            push_number (args[i]);
+          ret = apply (intern ("do_call"), c, 2 + nargs, ORIGIN_DRIVER);
           if (!ret || (ret->type == T_NUMBER && ret->u.number == 0))
             rc = 2;
           else
@@ -315,7 +483,9 @@ static void cmd_call (const char *origin, const char *oid, const char *fn)
         }
       else if (!strcmp (origin, "drv") || !strcmp (origin, "cot"))
         {
-          ret = apply (sfn, ob, 0, origin[0] == 'd' ? ORIGIN_DRIVER : ORIGIN_CALL_OUT);
+          for (int i = 0; i < nargs; i++)
+            push_number (args[i]);
+          ret = apply (sfn, ob, nargs, origin[0] == 'd' ? ORIGIN_DRIVER : ORIGIN_CALL_OUT);
           if (!ret)
             rc = 2;
           else
@@ -511,15 +681,18 @@ static void cmd_evict (const char *oid, const char *fn)
 
 static int c07_cmd (char *line)
 {
-  char copy[8192], *tok[128];
+  static char copy[1 << 17], *tok[4200];
   snprintf (copy, sizeof copy, "%s", line);
-  int n = vh_split (copy, tok, 128);
+  int n = vh_split (copy, tok, 4200);
   if (n == 0)
     return 0;
   if (!strcmp (tok[0], "names"))
     {
       for (int i = 1; i < n; i++)
         intern (tok[i]);
+      /* bodies hand function pointers to /c07/caller: it must exist before they run (the generated objects have no
+       * euid and could not load it) */
+      caller_ob ();
       return 1;
     }
   if (!strcmp (tok[0], "ld") && n == 3)
@@ -540,7 +713,14 @@ static int c07_cmd (char *line)
           ob = 0;
         }
       if (ob)
-        vh_setobj (tok[1], ob);
+        {
+          /* vh_setobj takes a reference when it creates the label (not when it re-points it): remember which objects
+           * carry one, `reload` has to give it back or the program (and its name strings) would stay alive */
+          int before = ob->ref;
+          vh_setobj (tok[1], ob);
+          if (ob->ref > before && nheld < 256)
+            held[nheld++] = ob;
+        }
       else
         vh_out ("ld %s !fail", tok[1]);
       return 1;
@@ -550,14 +730,21 @@ static int c07_cmd (char *line)
       cmd_dump (n, tok);
       return 1;
     }
+  if (!strcmp (tok[0], "reload"))
+    {
+      cmd_reload (n, tok);
+      return 1;
+    }
+  if (!strcmp (tok[0], "savebin") && n == 1)
+    return 1;			/* consumed by the plugin (#pragma save_binary in the generated sources) */
   if (!strcmp (tok[0], "call") && n == 4 && (!strcmp (tok[1], "coa") || !strcmp (tok[1], "cos")))
     {
       cmd_call_targets (tok[1], tok[2], tok[3]);
       return 1;
     }
-  if (!strcmp (tok[0], "call") && n == 4)
+  if (!strcmp (tok[0], "call") && (n == 4 || n == 5))
     {
-      cmd_call (tok[1], tok[2], tok[3]);
+      cmd_call (tok[1], tok[2], tok[3], n == 5 ? tok[4] : 0);
       return 1;
     }
   if (!strcmp (tok[0], "cold") && n == 1)
